@@ -248,6 +248,23 @@ func TestVerifC06(t *testing.T) {
 			})
 		}
 	}
+	// out of memory in the handler after the vmm is initialised (guard armed), on copy-on-write pages
+	// backed by an ordinary data frame (one of them shared by two pages) and by the zero frame: every
+	// one of these faults must panic
+	for v := 0; v < 4; v++ {
+		v := v
+		bcase("b-oom-after-init", func() {
+			g.refill(16)
+			g.do("rzf")
+			zf := uint64(ReservedZeroedFrame)
+			d := g.setupPage(0, 0x201, 0x4d)
+			g.do("map", g.winPage(1), d, 0x201|1<<63) // the same data frame, shared copy-on-write
+			g.do("map", g.winPage(2), zf, 0x201)
+			g.setupPage(3, 0x205, 0)
+			g.refill(0)
+			g.do("pf", g.winPage(v)<<12|uint64(v*8), uint64(3-v%2))
+		})
+	}
 	bcase("b-alloc-fail", func() {
 		g.refill(8)
 		g.do("maptmp", 5)
@@ -349,6 +366,11 @@ func TestVerifC06(t *testing.T) {
 			case 4:
 				g.do("map", g.winPage(10), r.pick(zf+1, zf-1), fl|2)
 			}
+		}
+		// now and then the allocator is empty when the first fault arrives
+		if r.chance(12) {
+			g.refill(0)
+			g.fault(va(r.intn(np)) | uint64(r.intn(4096)))
 		}
 		// faults in random order, with occasional damage / failure injection
 		steps := r.between(1, 8)
